@@ -36,6 +36,7 @@ POOL = [
     "some text", "  indented text", "x", ":", "text with | pipe", "text: colon",
     "", "   ", "\t",
     "# comment", "# language: de", "# language: zz", "#language:fr", "  # language: ja", "#",
+    "# language:", "#language:   ", "#  language :", "# language: ", "# Language: de", "# language: DE",
 ]
 
 
@@ -185,6 +186,12 @@ def suites(tier, seed):
         head = ["Feature: f", "  Scenario Outline: o" if outline else "  Scenario: s", "    Given a"]
         body = [rnd.choice(TPOOL) for _ in range(rnd.randint(2, 9))]
         soups.append({"entry": "feature", "text": "\n".join(head + body) + "\n", "lang": None})
+    # language comments of every shape as the first line of a feature file (known, unknown, no name at all)
+    for first in ("# language:", "#language:", "# language:   ", "#   language:    ", "# language: xx", "# language: en", "# language:de", "#language: fr ",
+                  "# language: de # trailing", "# language", "# LANGUAGE:", "# language: EN"):
+        for rest in ("Feature: f\n  Scenario: s\n    Given a\n", "", "@t\nFeature: f\n", "Funktionalität: f\n"):
+            soups.append({"entry": "feature", "text": first + "\n" + rest, "lang": None})
+            soups.append({"entry": "feature", "text": "\n" + first + "\n" + rest, "lang": rnd.choice([None, "de"])})
     for t in ("", "\n", " ", "@a", " @a", "\n@a", "@a\n@b c", "x", "@a\n\n  @b #c\n"):
         soups.append({"entry": "tags", "text": t, "lang": None})
     muts = []
